@@ -1,336 +1,45 @@
-(* The skip functions step over every RFC 8259 value exactly (they are complete:
-   a valid document is never refused because of a part the destination skips,
-   and the cursor lands right behind the value), and they are lenient: a text
-   that is no value at all is stepped over too (recorded finding SkipUnvalidated). *)
+(* The skip functions accept exactly the values of the grammar, at every nesting depth, whatever follows the value,
+   and leave the cursor right behind it; they never read outside the buffer and never run out of fuel.  All of it
+   through the relation between the walk of Compact and the RFC 8259 parser (Proofs/CompactP.v). *)
 From Coq Require Import NArith ZArith List Bool Lia.
-From Coq Require Import ZifyN ZifyNat ZifyBool.
-From GJ Require Import Base.Bytes Gen.Tables Model.Int Model.Compact Model.Iface Model.Skip Spec.Json
-  Proofs.CompactLeafP Proofs.JsonSpecP Proofs.IfaceP Proofs.ParseP Proofs.ParseWsP Proofs.LeafSoundP Proofs.ParseShapeP.
+From GJ Require Import Base.Bytes Gen.Tables Model.Int Model.Compact Model.Iface Model.Skip Spec.Json Proofs.CompactP.
 Import ListNotations.
 Open Scope N_scope.
 
-Definition neutral (c : N) : bool :=
-  negb ((c =? 123) || (c =? 125) || (c =? 91) || (c =? 93) || (c =? 34) || (c =? 0)).
+Lemma fuel_enough (ls : list N) : (2 * length (ls ++ [0%N]) + 2 >= 2 * length ls + 2)%nat.
+Proof. rewrite app_length. cbn. lia. Qed.
 
-Lemma scan_neutral obj count depth c r : neutral c = true ->
-  sk_scan obj count depth false false (c :: r) = sk_scan obj count depth false false r.
+(* what the parser says about the text behind the cursor decides what the skip function does *)
+Theorem skip_value_spec d ls :
+  sk_value d (ls ++ [0]) =
+  match pg_value clim allnum (2 * length (ls ++ [0]) + 2) d ls with
+  | Some (_, rest) => SOk (rest ++ [0])
+  | None => SErr
+  end.
 Proof.
-  unfold neutral. intro H. cbn [sk_scan].
-  destruct (N.eqb_spec c 123); [lia|]. destruct (N.eqb_spec c 125); [lia|]. destruct (N.eqb_spec c 91); [lia|].
-  destruct (N.eqb_spec c 93); [lia|]. destruct (N.eqb_spec c 34); [lia|]. destruct (N.eqb_spec c 0); [lia|]. reflexivity.
+  unfold sk_value. destruct (compact_rel (2 * length (ls ++ [0]) + 2)) as (Hv & _ & _).
+  specialize (Hv d ls). unfold val_rel in Hv.
+  destruct (pg_value clim allnum (2 * length (ls ++ [0]) + 2) d ls) as [[ts rest]|].
+  - rewrite Hv. reflexivity.
+  - destruct Hv as [E|[E B]]; [rewrite E; reflexivity|]. exfalso. pose proof (fuel_enough ls). lia.
 Qed.
 
-Lemma scan_neutrals obj count depth p : forall k, forallb neutral p = true ->
-  sk_scan obj count depth false false (p ++ k) = sk_scan obj count depth false false k.
+(* complete: every value of the grammar at depth d is stepped over, the cursor lands right behind it *)
+Theorem skip_value_complete d ls ts rest :
+  pg_value clim allnum (2 * length (ls ++ [0]) + 2) d ls = Some (ts, rest) -> sk_value d (ls ++ [0]) = SOk (rest ++ [0]).
+Proof. intro H. rewrite skip_value_spec, H. reflexivity. Qed.
+
+(* sound: nothing but a value of the grammar is stepped over *)
+Theorem skip_value_sound d ls r :
+  sk_value d (ls ++ [0]) = SOk r -> exists ts rest, pg_value clim allnum (2 * length (ls ++ [0]) + 2) d ls = Some (ts, rest) /\ r = rest ++ [0].
 Proof.
-  induction p as [|c p IH]; intros k H; [reflexivity|]. cbn [forallb] in H. apply andb_true_iff in H. destruct H as [Hc Hp].
-  cbn [app]. rewrite (scan_neutral _ _ _ c _ Hc). apply IH. exact Hp.
+  rewrite skip_value_spec. destruct (pg_value clim allnum (2 * length (ls ++ [0]) + 2) d ls) as [[ts rest]|]; [|discriminate].
+  intro H. inversion H. exists ts, rest. split; reflexivity.
 Qed.
 
-Lemma ws_neutral c : ws_b c = true -> neutral c = true.
-Proof. unfold ws_b, neutral. lia. Qed.
+Theorem skip_value_never_stuck d data : sk_value d (data ++ [0]) <> SStuck /\ sk_value d (data ++ [0]) <> SFuel.
+Proof. rewrite skip_value_spec. destruct (pg_value _ _ _ _ _) as [[ts rest]|]; split; discriminate. Qed.
 
-Lemma all_ws_neutral w : all_ws w = true -> forallb neutral w = true.
-Proof.
-  induction w as [|c w IH]; intro H; [reflexivity|]. cbn [all_ws] in H. apply andb_true_iff in H. destruct H as [Hc Hw].
-  cbn [forallb]. rewrite (ws_neutral c Hc), (IH Hw). reflexivity.
-Qed.
-
-Lemma numchar_neutral c : numchar_b c = true -> neutral c = true.
-Proof. unfold numchar_b, digit_b, neutral. lia. Qed.
-
-Lemma skip_ws_prefix l : exists w, l = w ++ skip_ws l /\ all_ws w = true.
-Proof.
-  induction l as [|c r (w & Hw & Ha)]; [exists []; split; reflexivity|]. cbn [skip_ws]. destruct (ws_b c) eqn:E.
-  - exists (c :: w). split; [cbn [app]; f_equal; exact Hw|cbn [all_ws]; rewrite E, Ha; reflexivity].
-  - exists []. split; reflexivity.
-Qed.
-
-Lemma scan_skip_ws obj count depth l k :
-  sk_scan obj count depth false false (l ++ k) = sk_scan obj count depth false false (skip_ws l ++ k).
-Proof.
-  destruct (skip_ws_prefix l) as (w & Hw & Ha). rewrite Hw at 1. rewrite <- app_assoc.
-  apply scan_neutrals. apply all_ws_neutral. exact Ha.
-Qed.
-
-(* a string body, from inside the string to behind the closing quote *)
-Lemma scan_string_body obj count depth : forall n l, (length l <= n)%nat -> forall b rest k,
-  p_string_body l = Some (b, rest) ->
-  sk_scan obj count depth true false (l ++ k) = sk_scan obj count depth false false (rest ++ k).
-Proof.
-  induction n as [|n IH]; intros l Hl b rest k H; [destruct l; [discriminate|cbn in Hl; lia]|].
-  destruct l as [|c l]; [discriminate|]. cbn [length] in Hl. cbn [p_string_body] in H. cbn [app sk_scan].
-  destruct (N.eqb_spec c 34) as [E|E].
-  { subst c. inversion H; subst. reflexivity. }
-  destruct (N.eqb_spec c 92) as [E1|E1].
-  - subst c. destruct l as [|e r1]; [discriminate|]. cbn [length] in Hl. cbn [app sk_scan].
-    destruct (simple_esc_b e) eqn:Es.
-    + assert (e =? 0 = false) by (unfold simple_esc_b in Es; lia). rewrite H0.
-      destruct (p_string_body r1) as [[b1 rest1]|] eqn:Eb; [|discriminate]. inversion H; subst.
-      apply (IH r1 ltac:(lia) b1 rest k Eb).
-    + destruct (N.eqb_spec e 117) as [Eu|Eu]; [|discriminate]. subst e. change (117 =? 0) with false. cbn iota.
-      destruct r1 as [|h1 [|h2 [|h3 [|h4 r2]]]]; try discriminate. cbn [length] in Hl.
-      destruct (hex_b h1 && hex_b h2 && hex_b h3 && hex_b h4) eqn:Eh; [|discriminate].
-      destruct (p_string_body r2) as [[b1 rest1]|] eqn:Eb; [|discriminate]. inversion H; subst.
-      assert (Hn : forall h, hex_b h = true -> (h =? 92) = false /\ (h =? 34) = false /\ (h =? 0) = false) by (intros h Hh; unfold hex_b, digit_b in Hh; lia).
-      cbn [app sk_scan].
-      assert (Hh : hex_b h1 = true /\ hex_b h2 = true /\ hex_b h3 = true /\ hex_b h4 = true)
-        by (destruct (hex_b h1), (hex_b h2), (hex_b h3), (hex_b h4); try discriminate; repeat split).
-      destruct Hh as (Hh1 & Hh2 & Hh3 & Hh4).
-      destruct (Hn h1 Hh1) as (A1 & A2 & A3). destruct (Hn h2 Hh2) as (B1 & B2 & B3).
-      destruct (Hn h3 Hh3) as (C1 & C2 & C3). destruct (Hn h4 Hh4) as (D1 & D2 & D3).
-      rewrite A1, A2, A3, B1, B2, B3, C1, C2, C3, D1, D2, D3.
-      apply (IH r2 ltac:(lia) b1 rest k Eb).
-  - destruct (c <? 32) eqn:Ec; [discriminate|].
-    assert (c =? 0 = false) by lia. rewrite H0.
-    destruct (p_string_body l) as [[b1 rest1]|] eqn:Eb; [|discriminate]. inversion H; subst.
-    apply (IH l ltac:(lia) b1 rest k Eb).
-Qed.
-
-(* the same for skipValue's own string loop *)
-Lemma sk_string_body : forall n l, (length l <= n)%nat -> forall b rest k,
-  p_string_body l = Some (b, rest) -> sk_string false (l ++ k) = SOk (rest ++ k).
-Proof.
-  induction n as [|n IH]; intros l Hl b rest k H; [destruct l; [discriminate|cbn in Hl; lia]|].
-  destruct l as [|c l]; [discriminate|]. cbn [length] in Hl. cbn [p_string_body] in H. cbn [app sk_string].
-  destruct (N.eqb_spec c 34) as [E|E].
-  { subst c. inversion H; subst. reflexivity. }
-  destruct (N.eqb_spec c 92) as [E1|E1].
-  - subst c. destruct l as [|e r1]; [discriminate|]. cbn [length] in Hl. cbn [app sk_string].
-    destruct (simple_esc_b e) eqn:Es.
-    + assert (e =? 0 = false) by (unfold simple_esc_b in Es; lia). rewrite H0.
-      destruct (p_string_body r1) as [[b1 rest1]|] eqn:Eb; [|discriminate]. inversion H; subst.
-      apply (IH r1 ltac:(lia) b1 rest k Eb).
-    + destruct (N.eqb_spec e 117) as [Eu|Eu]; [|discriminate]. subst e. change (117 =? 0) with false. cbn iota.
-      destruct r1 as [|h1 [|h2 [|h3 [|h4 r2]]]]; try discriminate. cbn [length] in Hl.
-      destruct (hex_b h1 && hex_b h2 && hex_b h3 && hex_b h4) eqn:Eh; [|discriminate].
-      destruct (p_string_body r2) as [[b1 rest1]|] eqn:Eb; [|discriminate]. inversion H; subst.
-      assert (Hn : forall h, hex_b h = true -> (h =? 92) = false /\ (h =? 34) = false /\ (h =? 0) = false) by (intros h Hh; unfold hex_b, digit_b in Hh; lia).
-      cbn [app sk_string].
-      assert (Hh : hex_b h1 = true /\ hex_b h2 = true /\ hex_b h3 = true /\ hex_b h4 = true)
-        by (destruct (hex_b h1), (hex_b h2), (hex_b h3), (hex_b h4); try discriminate; repeat split).
-      destruct Hh as (Hh1 & Hh2 & Hh3 & Hh4).
-      destruct (Hn h1 Hh1) as (A1 & A2 & A3). destruct (Hn h2 Hh2) as (B1 & B2 & B3).
-      destruct (Hn h3 Hh3) as (C1 & C2 & C3). destruct (Hn h4 Hh4) as (D1 & D2 & D3).
-      rewrite A1, A2, A3, B1, B2, B3, C1, C2, C3, D1, D2, D3.
-      apply (IH r2 ltac:(lia) b1 rest k Eb).
-  - destruct (c <? 32) eqn:Ec; [discriminate|].
-    assert (c =? 0 = false) by lia. rewrite H0.
-    destruct (p_string_body l) as [[b1 rest1]|] eqn:Eb; [|discriminate]. inversion H; subst.
-    apply (IH l ltac:(lia) b1 rest k Eb).
-Qed.
-
-Definition slim : option nat := Some max_depth.
-
-Lemma depth_fits d : depth_ok slim d = true -> (dmax <? Z.of_nat d + 1)%Z = false.
-Proof. unfold depth_ok, slim, max_depth, dmax. intro H. apply Nat.leb_le in H. lia. Qed.
-
-Notation SC := (fun obj count d => sk_scan obj count (Z.of_nat d) false false).
-
-(* inside skipObject / skipArray every value, and every member and element list up to
-   its closer, leaves the machine where it was *)
-Theorem scan_steps_over f :
-  (forall d l ts rest, pg_value slim allnum f d l = Some (ts, rest) ->
-     forall obj count k, (1 <= count)%nat -> SC obj count d (l ++ k) = SC obj count d (rest ++ k)) /\
-  (forall d l ts rest, pg_members slim allnum f d l = Some (ts, rest) ->
-     forall obj count k, (1 <= count)%nat -> SC obj count d (l ++ k) = SC obj count d (125 :: rest ++ k)) /\
-  (forall d l ts rest, pg_elements slim allnum f d l = Some (ts, rest) ->
-     forall obj count k, (1 <= count)%nat -> SC obj count d (l ++ k) = SC obj count d (93 :: rest ++ k)).
-Proof.
-  induction f as [|f (IHv & IHm & IHe)]; [split; [|split]; intros; discriminate|].
-  split; [|split].
-  - intros d l ts rest H obj count k Hcnt. cbn [pg_value] in H. rewrite scan_skip_ws.
-    destruct (skip_ws l) as [|c r] eqn:Es; [discriminate|].
-    destruct (N.eqb_spec c 123) as [E|E].
-    { subst c. destruct (depth_ok slim d) eqn:Ed; [|discriminate]. cbn [negb] in H.
-      cbn [app sk_scan]. change (123 =? 123) with true. cbn iota. cbv zeta. rewrite (depth_fits d Ed).
-      replace (Z.of_nat d + 1)%Z with (Z.of_nat (S d)) by lia.
-      rewrite scan_skip_ws.
-      destruct (skip_ws r) as [|c1 r'] eqn:Er; [discriminate|].
-      destruct (N.eqb_spec c1 125) as [E1|E1].
-      - subst c1. inversion H; subst. cbn [app sk_scan]. change (125 =? 123) with false. change (125 =? 125) with true. cbn iota.
-        replace (Z.of_nat (S d) - 1)%Z with (Z.of_nat d) by lia.
-        destruct obj; [|reflexivity]. destruct count; [lia|reflexivity].
-      - destruct (pg_members slim allnum f (S d) (c1 :: r')) as [[ts' rest']|] eqn:Em; [|discriminate]. inversion H; subst.
-        rewrite (IHm _ _ _ _ Em) by (destruct obj; lia). cbn [sk_scan]. change (125 =? 123) with false. change (125 =? 125) with true. cbn iota.
-        replace (Z.of_nat (S d) - 1)%Z with (Z.of_nat d) by lia.
-        destruct obj; [|reflexivity]. destruct count; [lia|reflexivity]. }
-    destruct (N.eqb_spec c 91) as [E2|E2].
-    { subst c. destruct (depth_ok slim d) eqn:Ed; [|discriminate]. cbn [negb] in H.
-      cbn [app sk_scan]. change (91 =? 123) with false. change (91 =? 125) with false. change (91 =? 91) with true. cbn iota. cbv zeta. rewrite (depth_fits d Ed).
-      replace (Z.of_nat d + 1)%Z with (Z.of_nat (S d)) by lia.
-      rewrite scan_skip_ws.
-      destruct (skip_ws r) as [|c1 r'] eqn:Er; [discriminate|].
-      destruct (N.eqb_spec c1 93) as [E1|E1].
-      - subst c1. inversion H; subst. cbn [app sk_scan]. change (93 =? 123) with false. change (93 =? 125) with false. change (93 =? 91) with false. change (93 =? 93) with true. cbn iota.
-        replace (Z.of_nat (S d) - 1)%Z with (Z.of_nat d) by lia.
-        destruct obj; [reflexivity|]. destruct count; [lia|reflexivity].
-      - destruct (pg_elements slim allnum f (S d) (c1 :: r')) as [[ts' rest']|] eqn:Em; [|discriminate]. inversion H; subst.
-        rewrite (IHe _ _ _ _ Em) by (destruct obj; lia). cbn [sk_scan]. change (93 =? 123) with false. change (93 =? 125) with false. change (93 =? 91) with false. change (93 =? 93) with true. cbn iota.
-        replace (Z.of_nat (S d) - 1)%Z with (Z.of_nat d) by lia.
-        destruct obj; [reflexivity|]. destruct count; [lia|reflexivity]. }
-    destruct (N.eqb_spec c 34) as [E3|E3].
-    { subst c. destruct (p_string_body r) as [[b rest']|] eqn:Eb; [|discriminate]. inversion H; subst.
-      cbn [app sk_scan]. change (34 =? 123) with false. change (34 =? 125) with false. change (34 =? 91) with false. change (34 =? 93) with false. change (34 =? 34) with true. cbn iota.
-      apply (scan_string_body obj count (Z.of_nat d) (length r) r (le_n _) b rest k Eb). }
-    destruct ((c =? 45) || digit_b c) eqn:E4.
-    { destruct (span numchar_b (c :: r)) as [num rest'] eqn:Esp.
-      destruct (json_number num && allnum num) eqn:Ej; [|discriminate]. inversion H; subst.
-      destruct (span_spec numchar_b (c :: r) num rest Esp) as [Hl Hf]. rewrite Hl. rewrite <- app_assoc.
-      apply scan_neutrals. apply forallb_forall. intros x Hx. rewrite forallb_forall in Hf. apply numchar_neutral. apply Hf. exact Hx. }
-    destruct (N.eqb_spec c 116) as [E5|E5].
-    { subst c. destruct (starts [114; 117; 101] r) as [rest'|] eqn:Est; [|discriminate]. inversion H; subst.
-      rewrite (starts_spec _ _ _ Est). change (116 :: [114; 117; 101] ++ rest) with ([116; 114; 117; 101] ++ rest). rewrite <- app_assoc.
-      apply scan_neutrals. reflexivity. }
-    destruct (N.eqb_spec c 102) as [E6|E6].
-    { subst c. destruct (starts [97; 108; 115; 101] r) as [rest'|] eqn:Est; [|discriminate]. inversion H; subst.
-      rewrite (starts_spec _ _ _ Est). change (102 :: [97; 108; 115; 101] ++ rest) with ([102; 97; 108; 115; 101] ++ rest). rewrite <- app_assoc.
-      apply scan_neutrals. reflexivity. }
-    destruct (N.eqb_spec c 110) as [E7|E7].
-    { subst c. destruct (starts [117; 108; 108] r) as [rest'|] eqn:Est; [|discriminate]. inversion H; subst.
-      rewrite (starts_spec _ _ _ Est). change (110 :: [117; 108; 108] ++ rest) with ([110; 117; 108; 108] ++ rest). rewrite <- app_assoc.
-      apply scan_neutrals. reflexivity. }
-    discriminate.
-  - intros d l ts rest H obj count k Hcnt. cbn [pg_members] in H. rewrite scan_skip_ws.
-    destruct (skip_ws l) as [|q r] eqn:Es; [discriminate|].
-    destruct (N.eqb_spec q 34) as [Eq|Eq]; cbn [negb] in H; [|discriminate]. subst q.
-    destruct (p_string_body r) as [[key r1]|] eqn:Ek; [|discriminate].
-    cbn [app sk_scan]. change (34 =? 123) with false. change (34 =? 125) with false. change (34 =? 91) with false. change (34 =? 93) with false. change (34 =? 34) with true. cbn iota.
-    rewrite (scan_string_body obj count (Z.of_nat d) (length r) r (le_n _) key r1 k Ek).
-    rewrite scan_skip_ws.
-    destruct (skip_ws r1) as [|c r2] eqn:E1; [discriminate|].
-    destruct (N.eqb_spec c 58) as [Ec|Ec]; cbn [negb] in H; [|discriminate]. subst c.
-    cbn [app]. rewrite (scan_neutral obj count (Z.of_nat d) 58 _ eq_refl).
-    destruct (pg_value slim allnum f d r2) as [[vt r3]|] eqn:Ev; [|discriminate].
-    rewrite (IHv _ _ _ _ Ev) by exact Hcnt. rewrite scan_skip_ws.
-    destruct (skip_ws r3) as [|c3 r4] eqn:E3; [discriminate|].
-    destruct (N.eqb_spec c3 125) as [E5|E5].
-    { subst c3. inversion H; subst. reflexivity. }
-    destruct (N.eqb_spec c3 44) as [E6|E6]; [|discriminate]. subst c3.
-    destruct (pg_members slim allnum f d r4) as [[ts' rest']|] eqn:Em; [|discriminate]. inversion H; subst.
-    cbn [app]. rewrite (scan_neutral obj count (Z.of_nat d) 44 _ eq_refl). apply (IHm _ _ _ _ Em). exact Hcnt.
-  - intros d l ts rest H obj count k Hcnt. cbn [pg_elements] in H.
-    destruct (pg_value slim allnum f d l) as [[vt r1]|] eqn:Ev; [|discriminate].
-    rewrite (IHv _ _ _ _ Ev) by exact Hcnt. rewrite scan_skip_ws.
-    destruct (skip_ws r1) as [|c r2] eqn:E1; [discriminate|].
-    destruct (N.eqb_spec c 93) as [E5|E5].
-    { subst c. inversion H; subst. reflexivity. }
-    destruct (N.eqb_spec c 44) as [E6|E6]; [|discriminate]. subst c.
-    destruct (pg_elements slim allnum f d r2) as [[ts' rest']|] eqn:Em; [|discriminate]. inversion H; subst.
-    cbn [app]. rewrite (scan_neutral obj count (Z.of_nat d) 44 _ eq_refl). apply (IHe _ _ _ _ Em). exact Hcnt.
-Qed.
-
-Lemma c_value_ws_app l k : all_ws l = true -> c_value_ws (l ++ k) = c_value_ws k.
-Proof.
-  induction l as [|c l IH]; intro H; [reflexivity|]. cbn [all_ws] in H. apply andb_true_iff in H. destruct H as [Hc Hl].
-  cbn [app c_value_ws]. rewrite is_ws_ws_b, Hc. apply IH. exact Hl.
-Qed.
-
-Lemma d_literal_ok word rest : word <> [] -> d_literal word (word ++ rest ++ [0]) = COk (rest ++ [0]).
-Proof.
-  intro Hne. unfold d_literal. rewrite !app_length. cbn [length].
-  assert (1 <= length word)%nat by (destruct word; [congruence|cbn; lia]).
-  destruct (Nat.leb_spec (length word + (length rest + 1)) (length word - 1)); [lia|].
-  rewrite firstn_app, Nat.sub_diag, firstn_all. cbn [firstn]. rewrite app_nil_r.
-  rewrite (proj2 (list_eqb_eq word word) eq_refl).
-  rewrite skipn_app, Nat.sub_diag, skipn_all. reflexivity.
-Qed.
-
-(* skipValue at depth d (as the element and member decoders call it) steps over every value of the
-   language the interface decoder accepts at that depth, and lands right behind it *)
-Theorem skip_value_complete f d l ts rest : pg_value slim allnum f d l = Some (ts, rest) ->
-  sk_value (Z.of_nat d) (l ++ [0]) = SOk (rest ++ [0]).
-Proof.
-  intro H. destruct (scan_steps_over f) as (_ & SM & SE). destruct f as [|f]; [discriminate|].
-  cbn [pg_value] in H. unfold sk_value.
-  destruct (skip_ws_prefix l) as (w & Hw & Ha). rewrite Hw. rewrite <- app_assoc. rewrite (c_value_ws_app w _ Ha).
-  destruct (skip_ws l) as [|c r] eqn:Es; [discriminate|].
-  assert (Hc : ws_b c = false) by exact (skip_ws_head _ _ _ Es).
-  cbn [app c_value_ws]. rewrite is_ws_ws_b, Hc.
-  destruct (scan_steps_over f) as (_ & SMf & SEf).
-  destruct (N.eqb_spec c 123) as [E|E].
-  { subst c. destruct (depth_ok slim d) eqn:Ed; [|discriminate]. cbn [negb] in H.
-    replace (Z.of_nat d + 1)%Z with (Z.of_nat (S d)) by lia. rewrite scan_skip_ws.
-    destruct (skip_ws r) as [|c1 r'] eqn:Er; [discriminate|].
-    destruct (N.eqb_spec c1 125) as [E1|E1].
-    - subst c1. inversion H; subst. reflexivity.
-    - destruct (pg_members slim allnum f (S d) (c1 :: r')) as [[ts' rest']|] eqn:Em; [|discriminate]. inversion H; subst.
-      rewrite (SMf _ _ _ _ Em) by lia. reflexivity. }
-  destruct (N.eqb_spec c 91) as [E2|E2].
-  { subst c. destruct (depth_ok slim d) eqn:Ed; [|discriminate]. cbn [negb] in H.
-    replace (Z.of_nat d + 1)%Z with (Z.of_nat (S d)) by lia. rewrite scan_skip_ws.
-    destruct (skip_ws r) as [|c1 r'] eqn:Er; [discriminate|].
-    destruct (N.eqb_spec c1 93) as [E1|E1].
-    - subst c1. inversion H; subst. reflexivity.
-    - destruct (pg_elements slim allnum f (S d) (c1 :: r')) as [[ts' rest']|] eqn:Em; [|discriminate]. inversion H; subst.
-      rewrite (SEf _ _ _ _ Em) by lia. reflexivity. }
-  destruct (N.eqb_spec c 34) as [E3|E3].
-  { subst c. destruct (p_string_body r) as [[b rest']|] eqn:Eb; [|discriminate]. inversion H; subst.
-    apply (sk_string_body (length r) r (le_n _) b rest [0] Eb). }
-  destruct ((c =? 45) || digit_b c) eqn:E4.
-  { change (isdig c) with (digit_b c). rewrite E4.
-    destruct (span numchar_b (c :: r)) as [num rest'] eqn:Esp.
-    destruct (json_number num && allnum num) eqn:Ej; [|discriminate]. inversion H; subst.
-    assert (Hn : numchar_b c = true).
-    { unfold numchar_b. apply orb_true_iff in E4. destruct E4 as [E4'|E4']; rewrite E4'; [apply orb_true_r|reflexivity]. }
-    cbn [span] in Esp. rewrite Hn in Esp. destruct (span numchar_b r) as [a b] eqn:Esr. inversion Esp; subst.
-    rewrite (d_span_float_sentinel r a rest Esr). reflexivity. }
-  change (isdig c) with (digit_b c). rewrite E4.
-  destruct (N.eqb_spec c 116) as [E5|E5].
-  { subst c. destruct (starts [114; 117; 101] r) as [rest'|] eqn:Est; [|discriminate]. inversion H; subst.
-    rewrite (starts_spec _ _ _ Est). rewrite <- app_assoc.
-    change (116 :: [114; 117; 101] ++ rest ++ [0]) with ([116; 114; 117; 101] ++ rest ++ [0]). rewrite d_literal_ok by discriminate. reflexivity. }
-  destruct (N.eqb_spec c 102) as [E6|E6].
-  { subst c. destruct (starts [97; 108; 115; 101] r) as [rest'|] eqn:Est; [|discriminate]. inversion H; subst.
-    rewrite (starts_spec _ _ _ Est). rewrite <- app_assoc.
-    change (102 :: [97; 108; 115; 101] ++ rest ++ [0]) with ([102; 97; 108; 115; 101] ++ rest ++ [0]). rewrite d_literal_ok by discriminate. reflexivity. }
-  destruct (N.eqb_spec c 110) as [E7|E7].
-  { subst c. destruct (starts [117; 108; 108] r) as [rest'|] eqn:Est; [|discriminate]. inversion H; subst.
-    rewrite (starts_spec _ _ _ Est). rewrite <- app_assoc.
-    change (110 :: [117; 108; 108] ++ rest ++ [0]) with ([110; 117; 108; 108] ++ rest ++ [0]). rewrite d_literal_ok by discriminate. reflexivity. }
-  discriminate.
-Qed.
-
-(* the machines never read past the sentinel *)
-Lemma scan_never_stuck obj : forall l count depth instr esc, sk_scan obj count depth instr esc (l ++ [0]) <> SStuck.
-Proof.
-  induction l as [|c l IH]; intros count depth instr esc.
-  - cbn. destruct instr; [destruct esc|]; discriminate.
-  - cbn [app sk_scan].
-    repeat match goal with
-    | |- (if ?b then _ else _) <> _ => destruct b
-    | |- (let _ := _ in _) <> _ => cbv zeta
-    | |- (match ?c with O => _ | S _ => _ end) <> _ => destruct c as [|[|?]]
-    end; try discriminate; try apply IH.
-Qed.
-
-Lemma sk_string_never_stuck : forall l esc, sk_string esc (l ++ [0]) <> SStuck.
-Proof.
-  induction l as [|c l IH]; intro esc.
-  - cbn. destruct esc; discriminate.
-  - cbn [app sk_string]. repeat match goal with |- (if ?b then _ else _) <> _ => destruct b end; try discriminate; apply IH.
-Qed.
-
-(* the recorded leniency: texts that are no JSON values are stepped over *)
-Theorem skip_value_lenient_refuted :
-  exists data, rfc_json data = false /\ sk_value 1 (data ++ [0]) = SOk [0].
-Proof. exists [91; 49; 32; 50; 32; 125; 125; 93]. split; vm_compute; reflexivity. Qed.
-
-Lemma d_literal_not_stuck w l : of_cres (d_literal w l) <> SStuck.
-Proof. unfold d_literal. destruct (Nat.leb (length l) (length w - 1)); [discriminate|]. destruct (list_eqb (firstn (length w) l) w); discriminate. Qed.
-
-(* skipValue never reads past the sentinel, whatever the input *)
-Theorem skip_value_never_stuck depth data : sk_value depth (data ++ [0]) <> SStuck.
-Proof.
-  unfold sk_value. rewrite c_value_ws_sentinel.
-  destruct (skip_ws data) as [|c r]; [cbn; discriminate|]. cbn [app].
-  destruct (c =? 123); [apply scan_never_stuck|].
-  destruct (c =? 91); [apply scan_never_stuck|].
-  destruct (c =? 34); [apply sk_string_never_stuck|].
-  destruct ((c =? 45) || isdig c).
-  { destruct (span numchar_b r) as [a b] eqn:E. rewrite (d_span_float_sentinel r a b E). discriminate. }
-  destruct (c =? 116); [apply d_literal_not_stuck|].
-  destruct (c =? 102); [apply d_literal_not_stuck|].
-  destruct (c =? 110); [apply d_literal_not_stuck|].
-  discriminate.
-Qed.
+(* the text the old scanners stepped over as one value (finding SkipUnvalidated, repaired) is refused *)
+Example skip_refuses_non_json : skip_run [91; 49; 32; 50; 32; 125; 125; 93] = SErr.
+Proof. vm_compute. reflexivity. Qed.
